@@ -113,6 +113,7 @@ type v20World struct {
 	release chan struct{}
 	quit    chan struct{}
 
+	nogate      bool // free-running mode (race_test.go): the gates let Run pass
 	retireGated map[int]bool
 	finalGated  bool
 	finalCtxOK  bool
@@ -136,6 +137,9 @@ func (w *v20World) add(kind, a, b int) {
 }
 
 func (w *v20World) pause(kind int) {
+	if w.nogate {
+		return
+	}
 	w.arrived <- kind
 	select {
 	case <-w.release:
@@ -795,7 +799,11 @@ func (h *v20Hist) shutdownCalls(k int) {
 			h.w.col.Shutdown()
 		}()
 	}
-	wg.Wait()
+	if !v20WaitTimeout(&wg) {
+		h.fail("shutdown-blocks", fmt.Sprintf("calls=%d state=%s: Shutdown() did not return", k, st))
+		h.dead("Shutdown() blocks its caller")
+		return
+	}
 	if panics.Load() > 0 {
 		h.fail("shutdown-panics", fmt.Sprintf("calls=%d panics=%d state=%s", k, panics.Load(), st))
 	}
@@ -1064,6 +1072,77 @@ func v20ErrClass(err error) int {
 	return add + 9
 }
 
+// v20LogOracle evaluates the property on the implementation's event log, independently of the Coq model.
+func v20LogOracle(fail func(kind, detail string), log []v20Ev, provShut int, returned, stopTaken bool, runErr error, final State) {
+	type key struct{ g, c int }
+	live := map[key]bool{}
+	started := map[key]bool{}
+	shut := map[key]int{}
+	closes := map[int]int{}
+	sawClosed := false
+	for i, e := range log {
+		if sawClosed {
+			fail("event-after-closed", fmt.Sprintf("event %d kind=%d", i, e.kind))
+		}
+		switch e.kind {
+		case v20EvCreate, v20EvStartOk, v20EvStartFail:
+			for k := range live {
+				if k.g != e.a {
+					fail("two-configurations-live", fmt.Sprintf("event %d: component %d of generation %d created/started while component %d of generation %d is live", i, e.b, e.a, k.c, k.g))
+				}
+			}
+			if e.phase != StateStarting {
+				fail("bringup-outside-starting", fmt.Sprintf("event %d kind=%d state=%s", i, e.kind, e.phase))
+			}
+			if e.kind == v20EvStartOk {
+				live[key{e.a, e.b}] = true
+				started[key{e.a, e.b}] = true
+			}
+		case v20EvShutOk, v20EvShutFail:
+			delete(live, key{e.a, e.b})
+			shut[key{e.a, e.b}]++
+			if shut[key{e.a, e.b}] > 1 {
+				fail("component-shutdown-twice", fmt.Sprintf("generation %d component %d", e.a, e.b))
+			}
+		case v20EvClose:
+			closes[e.a]++
+			if closes[e.a] > 1 {
+				fail("retrieved-closed-twice", fmt.Sprintf("generation %d", e.a))
+			}
+		case v20EvProvShutLive, v20EvProvShutDead:
+			if e.phase != StateClosing {
+				fail("provider-shutdown-outside-closing", e.phase.String())
+			}
+		}
+		if e.phase == StateClosed {
+			sawClosed = true
+		}
+	}
+	if provShut > 1 {
+		fail("provider-shutdown-twice", fmt.Sprint(provShut))
+	}
+	if returned {
+		for k := range live {
+			fail("left-started", fmt.Sprintf("Run returned (%v) with generation %d component %d started and never shut down", runErr, k.g, k.c))
+		}
+		if stopTaken {
+			if final != StateClosed {
+				fail("stop-not-closed", "final state "+final.String())
+			}
+			if provShut != 1 {
+				fail("provider-shutdown-count", fmt.Sprintf("stopped run: provider shut down %d times", provShut))
+			}
+			for k := range started {
+				if shut[k] != 1 {
+					fail("service-shutdown-count", fmt.Sprintf("generation %d component %d shut down %d times", k.g, k.c, shut[k]))
+				}
+			}
+		} else if runErr == nil {
+			fail("returns-nil-without-stop", "")
+		}
+	}
+}
+
 // ---- direct oracle on the implementation's log + case term ---------------------------------------------
 func (h *v20Hist) finish() v20Result {
 	w := h.w
@@ -1074,73 +1153,7 @@ func (h *v20Hist) finish() v20Result {
 	returned := h.pc == v20PcDone
 	final := w.col.GetState()
 
-	type key struct{ g, c int }
-	live := map[key]bool{}
-	started := map[key]bool{}
-	shut := map[key]int{}
-	closes := map[int]int{}
-	sawClosed := false
-	for i, e := range log {
-		if sawClosed {
-			h.fail("event-after-closed", fmt.Sprintf("event %d kind=%d", i, e.kind))
-		}
-		switch e.kind {
-		case v20EvCreate, v20EvStartOk, v20EvStartFail:
-			for k := range live {
-				if k.g != e.a {
-					h.fail("two-configurations-live", fmt.Sprintf("event %d: component %d of generation %d created/started while component %d of generation %d is live", i, e.b, e.a, k.c, k.g))
-				}
-			}
-			if e.phase != StateStarting {
-				h.fail("bringup-outside-starting", fmt.Sprintf("event %d kind=%d state=%s", i, e.kind, e.phase))
-			}
-			if e.kind == v20EvStartOk {
-				live[key{e.a, e.b}] = true
-				started[key{e.a, e.b}] = true
-			}
-		case v20EvShutOk, v20EvShutFail:
-			delete(live, key{e.a, e.b})
-			shut[key{e.a, e.b}]++
-			if shut[key{e.a, e.b}] > 1 {
-				h.fail("component-shutdown-twice", fmt.Sprintf("generation %d component %d", e.a, e.b))
-			}
-		case v20EvClose:
-			closes[e.a]++
-			if closes[e.a] > 1 {
-				h.fail("retrieved-closed-twice", fmt.Sprintf("generation %d", e.a))
-			}
-		case v20EvProvShutLive, v20EvProvShutDead:
-			if e.phase != StateClosing {
-				h.fail("provider-shutdown-outside-closing", e.phase.String())
-			}
-		}
-		if e.phase == StateClosed {
-			sawClosed = true
-		}
-	}
-	if provShut > 1 {
-		h.fail("provider-shutdown-twice", fmt.Sprint(provShut))
-	}
-	if returned {
-		for k := range live {
-			h.fail("left-started", fmt.Sprintf("Run returned (%v) with generation %d component %d started and never shut down", h.runErr, k.g, k.c))
-		}
-		if h.stopTaken {
-			if final != StateClosed {
-				h.fail("stop-not-closed", "final state "+final.String())
-			}
-			if provShut != 1 {
-				h.fail("provider-shutdown-count", fmt.Sprintf("stopped run: provider shut down %d times", provShut))
-			}
-			for k := range started {
-				if shut[k] != 1 {
-					h.fail("service-shutdown-count", fmt.Sprintf("generation %d component %d shut down %d times", k.g, k.c, shut[k]))
-				}
-			}
-		} else if h.runErr == nil {
-			h.fail("returns-nil-without-stop", "")
-		}
-	}
+	v20LogOracle(h.fail, log, provShut, returned, h.stopTaken, h.runErr, final)
 	// case term
 	gs := make([]string, len(w.gens))
 	for i, g := range w.gens {
